@@ -231,6 +231,11 @@ func registerNd(e *Engine) {
 		}
 		return r
 	}
+	I[p+"ExportPC"] = func(x *Exec, caller *frame, fn *ssa.Function, args []Value) Value {
+		name := x.concreteStr(args[0], "export name")
+		x.res.Exports = append(x.res.Exports, PathExport{Name: name, PC: append([]*Term{}, x.pc...)})
+		return nil
+	}
 	I[p+"Epoch"] = func(x *Exec, caller *frame, fn *ssa.Function, args []Value) Value {
 		x.epoch++
 		return nil
